@@ -129,7 +129,7 @@ func main() {
 					u.Uses = append(u.Uses, d)
 				}
 			} else if o.Pkg() != nil && o.Pkg().Path() == "main" {
-				if _, isFn := o.(*types.Func); isFn && o.Parent() == o.Pkg().Scope() {
+				if fn, isFn := o.(*types.Func); isFn && (o.Parent() == o.Pkg().Scope() || fn.Type().(*types.Signature).Recv() != nil) {
 					if !seenC[o.Name()] {
 						seenC[o.Name()] = true
 						u.Calls = append(u.Calls, o.Name())
